@@ -314,9 +314,14 @@ let cmd_oix line =
     | SErr e -> "{\"panic\":\"" ^ err_string e ^ "\"}"
     | SOk None -> "null"
     | SOk (Some l) -> "[" ^ String.concat "," (List.map jdocsym l) ^ "]") in
-  Printf.sprintf "{\"bad\":%s,\"ops\":[%s],\"outline\":[%s]}" (if st.oi_bad then "true" else "false")
+  (* side condition of C18_outline_source_complete (single file, no include statement): counts of registered / source declarations *)
+  let src = (match w.ws_files with
+    | [root] when List.for_all no_include root ->
+        Printf.sprintf "[%d,%d]" (List.length (ops_decls (oix_ops w))) (List.length (program_decls root))
+    | _ -> "null") in
+  Printf.sprintf "{\"bad\":%s,\"ops\":[%s],\"outline\":[%s],\"decl_counts\":%s}" (if st.oi_bad then "true" else "false")
     (String.concat "," (List.map (fun o -> "\"" ^ op_string o ^ "\"") (oix_ops w)))
-    (String.concat "," outl)
+    (String.concat "," outl) src
 
 let () =
   match Sys.argv with
